@@ -160,12 +160,16 @@ compact_array_tuple_sketch<Array, Allocator> compact_array_tuple_sketch<Array, A
   if (has_entries) {
     const auto num_entries = read<uint32_t>(is);
     read<uint32_t>(is); // unused
-    entries.reserve(num_entries);
-    std::vector<uint64_t, AllocU64> keys(num_entries, 0, allocator);
-    read(is, keys.data(), num_entries * sizeof(uint64_t));
+    // the count is not validated yet: the containers grow with what is actually read from the stream
+    std::vector<uint64_t, AllocU64> keys(allocator);
+    for (size_t i = 0; i < num_entries; ++i) {
+      keys.push_back(read<uint64_t>(is));
+      if (!is.good()) throw std::runtime_error("error reading from std::istream");
+    }
     for (size_t i = 0; i < num_entries; ++i) {
       Array summary(num_values, 0, allocator);
       read(is, summary.data(), num_values * sizeof(typename Array::value_type));
+      if (!is.good()) throw std::runtime_error("error reading from std::istream");
       entries.push_back(Entry(keys[i], std::move(summary)));
     }
   }
